@@ -1,7 +1,7 @@
 #!/bin/sh
 # run every registered thorough check sequentially; one summary line per property (evidence files are rewritten with tier=thorough)
 cd "$(dirname "$0")/.."
-for p in C02 C05 C06 C10 C14 C15 C16 C17 C11 C13 C09 C03 C08 C01 C07 C12; do
+for p in C13 C09 C03 C08 C01 C07 C12 C05 C14 C15 C10 C16 C02 C06 C17 C11; do
   start=$(date +%s)
   ./check $p --tier thorough > /tmp/runthor_$p.log 2>&1
   rc=$?
